@@ -65,7 +65,9 @@ pub fn problems(tier: Tier) -> Vec<(String, PProblem)> {
 /// Vicinity clustering is outside of the oracle's schedule replay: its problems are judged by the accounting rules only.
 pub fn problems_for(tier: Tier, scope: Scope) -> Vec<(String, PProblem)> {
     let mut out = problems(tier);
-    if matches!(scope, Scope::Accounting) {
+    out.extend(family_timedep().into_iter().map(|p| ("timedep".to_string(), p)));
+    // clustering: accounting rules, and of the reporting rules only "overall statistic == sum of the tours"
+    if matches!(scope, Scope::Accounting | Scope::Reporting) {
         out.extend(family_cluster().into_iter().map(|p| ("cluster".to_string(), p)));
     }
     out
@@ -109,6 +111,7 @@ pub fn judge(family: &str, problem: &PProblem, cfg: &SolveCfg, scope: Scope) -> 
             let violations = findings
                 .into_iter()
                 .filter(|f| oracle::in_scope(f, scope))
+                .filter(|f| family != "cluster" || f.rule.starts_with("C02:") || f.rule == "C03:statistic-total")
                 .map(|f| (finding_key(&f, family, problem), f))
                 .filter(|(key, _)| seen.insert(key.clone()))
                 .map(|(key, f)| Violation::new(key, f.what, scen.clone()))
